@@ -62,6 +62,13 @@ SPEC = {
             "move-assign/insert/destruction for N on the ladder (each descriptor closed exactly once, none while held), fgets loops "
             "over streams of N lines for N on the ladder (<= 513/4097) x 6 line-length patterns, 960/20000 stream histories of 1..301 "
             "calls on one stream (cursor model). "
+            "PRIOR HISTORY: for every entry of the shared catalogue of ~280 earlier unrelated uses of phosg's helpers (join / split / fgets with "
+            "total sizes 0..70000, one string_printf output of every length 0..132 and around every power of two up to 1 MiB, runs of 5000 "
+            "short outputs, escapers, formatters, hash hex; harness/vf_history.hh) plus two-step histories, a FRESH thread runs the prior and "
+            "then a mini-workload of every helper family: fgets over 16 line lengths straddling 254/255/256, 509..513, 1099/1100 in increasing, "
+            "decreasing and zig-zag order (fopencookie with 3 plans, fmemopen), read_all(FILE*) on 8 and read_all(fd) on 6 sizes 0..50000 "
+            "(descending and ascending), readx/freadx exact and over-long, load_file(save_file) over shrinking and growing sizes, 12 "
+            "dirname/basename paths, list_directory of 7 entries; same oracles, keys <op>:prior-history:<family>:.... "
             "distinct_nontrivial = distinct (helper, source kind, plan family/size shape, outcome) classes, e.g. "
             "read_all_fd:file:blockplan:32K:ok, fgets:cookie:len254-257:unterminated:plan-255:ok, poll:final-size2:with-readd.",
     "level_text": "The delivery schedule is the fault being enumerated: within the stated bounds every chunking of the source "
@@ -129,6 +136,14 @@ SPEC = {
         "scoped_fd_many:1-16-objects", "scoped_fd_many:17-64-objects", "scoped_fd_many:>257-objects",
         "fgets:cookie:many-lines:17-64:*:ok", "fgets:cookie:many-lines:>257:*:ok", "fgets:fopen:many-lines:65-257:*:ok",
         "stream_history:long:17-64-calls", "stream_history:long:>257-calls",
+        "prior:none:fgets", "prior:join:fgets", "prior:fgets:fgets", "prior:split:fgets", "prior:printf-len:fgets", "prior:printf-run:fgets",
+        "prior:escape:fgets", "prior:format:fgets", "prior:hash-hex:fgets", "prior:two-step:fgets",
+        "prior:join:read_all", "prior:fgets:read_all", "prior:printf-len:read_all", "prior:printf-len:readx", "prior:join:load_save",
+        "prior:printf-len:paths", "prior:join:list_directory", "prior:two-step:list_directory",
+        "fgets:cookie:prior-history:increasing:ok", "fgets:cookie:prior-history:decreasing:ok", "fgets:cookie:prior-history:zig-zag:ok",
+        "fgets:fmemopen:prior-history:decreasing:ok", "read_all_file:cookie:prior-history:*:ok", "read_all_fd:pipe:prior-history:*:ok",
+        "read_all_fd:file:prior-history:*:ok", "readx_fd:file:prior-history:ok", "freadx:cookie:prior-history:ok", "freadx:cookie:prior-history:throw",
+        "load_save:roundtrip:prior-history:*", "list_directory:prior-history:*",
     ],
     "exhaustive": {"quick": False, "thorough": False},
     "exhaustive_note": "enumerated completely: all {1,2,3,F}^8 read plans x 13 payload lengths for read_all(fd); all block plans "
